@@ -51,8 +51,8 @@ def SIM_CFG(tier):
 
 def make_request(ch, i):
     """-> (request, checker(reply) -> reason|None, kind)"""
-    kind = ch.pick(["sign.hash", "sign.auth", "advance", "ancestor", "state", "heartbeat", "pubkey"],
-                   "req.kind")
+    kind = ch.pick(["sign.hash", "sign.auth", "advance", "ancestor", "state", "heartbeat", "pubkey",
+                    "sign.hash", "sign.auth", "uiheartbeat"], "req.kind")
     if kind == "sign.hash":
         h = hashlib.sha256(b"c12" + bytes([i]) + ch.bytes(4, "uniq")).digest()
         path = c01.PATHS[2 + ch.draw(4, "path")]
@@ -99,6 +99,16 @@ def make_request(ch, i):
             if rep.get("errorcode") != 0 or not str(rep.get("message", "")).endswith(ud.hex()):
                 return "expected a heartbeat over this client's value %s, got %r" % (ud.hex(), rep)
         return req, chk, kind
+    if kind == "uiheartbeat":
+        ud = hashlib.sha256(b"uihb" + bytes([i]) + ch.bytes(4, "uniq")).digest()
+        req = {"command": "uiHeartbeat", "udValue": ud.hex(), "version": 5}
+
+        def chk(rep):
+            # the mode walk (exit, USB re-enumeration, UI heartbeat, exit, re-enumeration) runs while
+            # the other clients wait; the message embeds this client's value
+            if rep.get("errorcode") != 0 or ud.hex() not in str(rep.get("message", "")):
+                return "expected a UI heartbeat over this client's value %s, got %r" % (ud.hex(), rep)
+        return req, chk, kind
     path = c01.PATHS[ch.draw(6, "path")]
     return {"command": "getPubKey", "keyId": path, "version": 5}, \
         (lambda rep: None if rep.get("errorcode") == 0 else "got %r" % (rep,)), kind
@@ -107,7 +117,10 @@ def make_request(ch, i):
 def run_one(ch, cfg):
     nclients = 2 + ch.draw(cfg["max_clients"] - 1, "nclients")
     lat = [0.0, 0.0005, 0.01, 0.3]
-    w = ServerWorld(ch, device_cfg={"sig_from_request": True}, step_cap=60000,
+    w = ServerWorld(ch, device_cfg={"sig_from_request": True,
+                                    "post_exit_signer": {"mode": 0x04, "delay": 0.3, "silence": "read_err"},
+                                    "post_exit_uihb": {"mode": 0x03, "delay": 0.3, "silence": "read_err"}},
+                    step_cap=60000,
                     latency=lambda apdu: lat[ch.draw(len(lat), "latency")])
     k = w.kernel
     dev = w.device
